@@ -43,17 +43,29 @@ def r1(ctx, table):
             rv = st.get("rv") or {}
             if st["k"] == "assign" and rv.get("k") == "agg" and rv.get("adt", "").endswith("Tag") and rv.get("variant"):
                 dnf = R.reach_dnf(r, Or, bb)
+                masked = "BitAnd %d)" % table["class_mask"]
                 for path in dnf or ():
-                    vals = []
+                    vals, excluded = [], set()
                     for k, truth in path:
                         parts = k.split("|")
+                        if masked not in parts[0]:
+                            continue        # a test of other bits than the two class bits does not decide the class
                         try:
                             if parts[2] == "eq" and truth == "at-or-above":
                                 vals.append(int(parts[3]))
+                            elif parts[2] == "eq":
+                                excluded.add(int(parts[3]))
                             elif parts[2] == "b" and parts[3] == "1" and truth == "below":
                                 vals.append(0)      # `x == 0` of an unsigned value is kept as `x < 1`
+                            elif parts[2] == "b" and parts[3] == "1":
+                                excluded.add(0)
                         except ValueError:
                             continue
+                    if not vals and excluded:
+                        # the last `else` of the chain: the one class value that was not excluded
+                        rest = set(want.values()) - excluded
+                        if len(rest) == 1:
+                            vals = sorted(rest)
                     for v in vals:
                         if rv["variant"] not in rt.setdefault(v, []):
                             rt[v].append(rv["variant"])
